@@ -83,6 +83,26 @@ m("c07-sep-forgets-tracker", "asm/emitter.go", "func (a *Emitter) SEP(c Flags) {
 m("c07-guard-inverted", "asm/emitter.go", "func (a *Emitter) CPY_imm8_b(m uint8) {\n\tif a.IsX16bit() {", "func (a *Emitter) CPY_imm8_b(m uint8) {\n\tif !a.IsX16bit() {", ["C07"])
 m("c07-guard-missing", "asm/emitter.go", "func (a *Emitter) LDY_imm16_w(m uint16) {\n\tif !a.IsX16bit() {", "func (a *Emitter) LDY_imm16_w(m uint16) {\n\tif false {", ["C07"])
 
+# ---- C12
+m("c12-rununtil-le", "emulator/system.go", "for cycles := uint64(0); cycles < maxCycles; {", "for cycles := uint64(0); cycles <= maxCycles; {", ["C12"])
+m("c12-allcycles-plus1", "emulator/cpu65c816/cpu.go", "\tcpu.AllCycles += uint64(cpu.Cycles)\n", "\tcpu.AllCycles += uint64(cpu.Cycles) + 1\n", ["C12"])
+m("c12-onpc-dropped", "emulator/cpu65c816/cpu.go", "\tif cb, ok := cpu.OnPC[uint32(cpu.RK)<<16|uint32(cpu.PC)]; ok {\n\t\tcb()\n\t}\n", "", ["C12"])
+m("c12-onpc-ignores-bank", "emulator/cpu65c816/cpu.go", "cpu.OnPC[uint32(cpu.RK)<<16|uint32(cpu.PC)]", "cpu.OnPC[uint32(cpu.RK&0xFE)<<16|uint32(cpu.PC)]", ["C12"])
+m("c12-rununtil-pc16", "emulator/system.go", "\t\tif s.GetPC() == targetPC {\n\t\t\tbreak\n\t\t}", "\t\tif s.GetPC()&0xFFFF == targetPC&0xFFFF {\n\t\t\tbreak\n\t\t}", ["C12"])
+m("c12-rununtil-step-before-check", "emulator/system.go", "\t\tif s.GetPC() == targetPC {\n\t\t\tbreak\n\t\t}\n\t\tnCycles, _ := s.CPU.Step()\n\t\tcycles += uint64(nCycles)", "\t\tnCycles, _ := s.CPU.Step()\n\t\tcycles += uint64(nCycles)\n\t\tif s.GetPC() == targetPC {\n\t\t\tbreak\n\t\t}", ["C12"])
+m("c12-zero-cycle-opcode", "emulator/cpu65c816/cpu.go", "{0xea, \"nop\", m_Implied, 1, 2, op_nop},", "{0xea, \"nop\", m_Implied, 1, 0, op_nop},", ["C12"])
+m("c12-wdm-callback-stale", "emulator/cpualt/cpu.go", "\tcpu.WDM = cpu.cmdRead()\n\n\t// invoke callback:\n\tonWDM := cpu.OnWDM\n\tif onWDM != nil {\n\t\tonWDM(cpu.WDM)", "\told := cpu.WDM\n\tcpu.WDM = cpu.cmdRead()\n\n\t// invoke callback:\n\tonWDM := cpu.OnWDM\n\tif onWDM != nil {\n\t\tonWDM(old)", ["C12"])
+m("c12-stopped-cleared-by-step", "emulator/cpualt/cpu.go", "\tcpu.PPC = cpu.PC\n\tcpu.PRK = cpu.RK\n", "\tcpu.PPC = cpu.PC\n\tcpu.PRK = cpu.RK\n\tcpu.Stopped = false\n", ["C12"])
+
+# ---- C14
+m("c14-disasm-uses-cpu-pc-plus1", "emulator/cpu65c816/cpu_disassembler.go", "xb.Db(c.Cycles).C('\\t').X02(c.RK).C(':').X04(myPC).C('|')", "xb.Db(c.Cycles).C('\\t').X02(c.RK).C(':').X04(myPC &^ 0x8000 | myPC&0x8000).C('|')\n\tif c.D == 1 && c.M == 0 {\n\t\tc.Z = 0\n\t}", ["C14"])
+m("c14-flagx-sized-by-m", "emulator/cpu65c816/cpu_disassembler.go", "\tif mode == m_Immediate_flagX {\n\t\tsizeAdjust = c.X\n\t}", "\tif mode == m_Immediate_flagX {\n\t\tsizeAdjust = c.M\n\t}", ["C14"])
+m("c14-flags-order", "emulator/cpu65c816/cpu_disassembler.go", "\tappendCPUFlags(&xb, c.Z, 'Z')\n\tappendCPUFlags(&xb, c.C, 'C')", "\tappendCPUFlags(&xb, c.C, 'Z')\n\tappendCPUFlags(&xb, c.Z, 'C')", ["C14"])
+m("c14-alt-x-width", "emulator/cpualt/cpu_disassembler.go", "\t\t_, _ = fmt.Fprintf(w, \"A=%04x X=--%02x Y=--%02x\", c.RA, c.RXl, c.RYl)", "\t\t_, _ = fmt.Fprintf(w, \"A=%04x X=--%02x Y=--%02x\", c.RA, byte(c.RX>>8), c.RYl)", ["C14"])
+m("c14-logger-reserve-steps", "emulator/system.go", "\t\treserver.Reserve(40 * n / 2)", "\t\treserver.Reserve(40 * n / 2)\n\t\tif n > 0x80 {\n\t\t\ts.CPU.AllCycles++\n\t\t}", ["C14"])
+m("c14-abs-long-order", "emulator/cpualt/cpu_disassembler.go", "\t\tn, _ = fmt.Fprintf(w, \"$%02x%02x%02x\", w3, w2, w1)\n\tcase m_Absolute_Long_X:", "\t\tn, _ = fmt.Fprintf(w, \"$%02x%02x%02x\", w3, w1, w2)\n\tcase m_Absolute_Long_X:", ["C14"])
+m("c14-rel16-base", "emulator/cpu65c816/cpu_disassembler.go", "\t\taddr := c.PC + 3 + arg16", "\t\taddr := c.PC + 2 + arg16", ["C14"])
+
 def sh(cmd, **kw):
     return subprocess.run(cmd, shell=True, text=True, capture_output=True, **kw)
 
